@@ -10,14 +10,19 @@
    The same with PARTIAL READS: every block's records split arbitrarily between several ARead steps (C03_contract_cuts,
    C03_sound_pipeline_cuts), and with LOOSE TIMING after the reads: any ticks and queue_events calls before the final delay
    (C03_contract_loose).  No operation, tick or queue_events call between the reads of a block.
-   STATED ONLY: C03_sound_full_current - soundness over ALL interleavings: bursts of operations before the previous block is
-   drained, ticks / queue_events between the reads of a block. *)
+   BURSTS of FILE-LEVEL operations (several operations before a read; no directory created, removed or renamed): the stream
+   is the per-operation contracts and every event is justified, at the read_batch / delivered level (C03_burst_files_contract,
+   C03_burst_files_sound) and on the Pipeline model with cut reads and loose timing (C03_burst_files_pipeline); side condition:
+   no record coalesced by the kernel across an operation border.
+   STATED ONLY: C03_sound_full_current - soundness over ALL interleavings: bursts that contain directory operations, operations
+   or ticks / queue_events between the reads of a block. *)
 Require Import WD.Base.Prelude WD.Base.BStr WD.Model.SubEvents WD.Model.Emitter WD.Model.Fs WD.Model.Reader
                WD.Model.DelayQueue WD.Model.Grouping WD.Model.Pipeline WD.Model.Contract.
 Require Import WD.Proofs.ContractProofs WD.Proofs.TieProofs WD.Proofs.MoveOutProofs WD.Proofs.CoverProofs WD.Proofs.ReplaceProofs
                WD.Proofs.CoverOutProofs WD.Proofs.ReplayProofs WD.Proofs.ReplayOutProofs WD.Proofs.SoundSeqProofs
                WD.Proofs.ReplayPipeProofs WD.Proofs.SoundPipeProofs
-               WD.Proofs.CutsProofs WD.Proofs.CutsPipeProofs WD.Proofs.SoundCutsProofs WD.Proofs.SoundLooseProofs.
+               WD.Proofs.CutsProofs WD.Proofs.CutsPipeProofs WD.Proofs.SoundCutsProofs WD.Proofs.SoundLooseProofs
+               WD.Proofs.BurstProofs.
 
 (* ================================================================== soundness: shape of what [emit] produces *)
 (* Hold for every item, every configuration, every content oracle - no hypothesis. *)
@@ -552,6 +557,73 @@ Theorem C03_contract_loose : forall P ct lt ops w s0, let C := pc_reader P in
 Proof. exact contract_pipeline_loose. Qed.
 Print Assumptions C03_contract_loose.
 
+(* ================================================================== bursts of file-level operations *)
+(* Several operations applied back to back before anything is read.  Class ([burst_ok]): operations of c02p's sequential
+   class that are FILE-LEVEL ([file_op]): touch, write, chmod of a file, unlink, rename of a file (inside the tree, in, out,
+   replacing a file) - nothing that creates, removes or renames a directory.  From a synchronised state (RSync), with
+   [burst_end] the kernel and world after the burst and [seq_qs] the kernel queues the operations produce one at a time:
+   if the kernel coalesced no record across an operation border (hypothesis: the burst's queue is the concatenation of the
+   per-operation queues; the kernel drops a record identical to the last unread one - among file-level operations only
+   `chmod f; chmod f` does that), then reading the whole queue leaves the reader synchronised, and the delivered stream is,
+   chunk by chunk, the contract of each operation taken at the file-system state in which it ran, up to collapse.
+   Why: records about files are translated independently of the file system and the kernel state at read time
+   (read_batch_file), cookies of later renames are larger (no pairing across operations), file items are emitted without
+   looking at the tree. *)
+Theorem C03_burst_files_contract : forall C full, c_faults C = [] -> c_fix_moveout C = true -> c_mask C = WATCHDOG_ALL ->
+  forall w k r ops, RSync C w k r -> burst_ok C w ops ->
+  let KB := fst (burst_end k w ops) in let wn := snd (burst_end k w ops) in
+  k_queue KB = concat (seq_qs k w ops) ->
+  exists r' raws chunks,
+    read_batch C (w_fs wn) (r, drainq KB, []) (k_queue KB) = Done (r', drainq KB, raws) /\
+    RSync C wn (drainq KB) r' /\
+    delivered C full wn raws = concat chunks /\
+    Forall2 (fun ch ct0 => collapse ch = collapse ct0) chunks (contracts_of C full w ops).
+Proof. exact burst_files_contract. Qed.
+Print Assumptions C03_burst_files_contract.
+
+(* ... and every delivered event is justified by an operation of the burst ([burst_recs]: what the oracle records about
+   each operation, at the state in which it ran). *)
+Theorem C03_burst_files_sound : forall C full, c_faults C = [] -> c_fix_moveout C = true -> c_mask C = WATCHDOG_ALL ->
+  forall w k r ops, RSync C w k r -> burst_ok C w ops ->
+  let KB := fst (burst_end k w ops) in let wn := snd (burst_end k w ops) in
+  k_queue KB = concat (seq_qs k w ops) ->
+  exists r' raws, read_batch C (w_fs wn) (r, drainq KB, []) (k_queue KB) = Done (r', drainq KB, raws) /\
+    forallb (justified (c_recursive C) (c_root C) (burst_recs w ops)) (delivered C full wn raws) = true.
+Proof. exact burst_files_sound. Qed.
+Print Assumptions C03_burst_files_sound.
+
+(* The same on the Pipeline model: [burst_hist P ops cuts L nit] = the operations back to back (AOp ...), then the reads of
+   the whole kernel queue cut arbitrarily (ARead n1 ... nk, the cuts add up), any ticks / queue_events calls [L], the pairing
+   delay, queue_events until the buffer is empty.  From a state whose reader is synchronised (RSync) and whose buffer is
+   idle: the history runs, sound_along holds along it, the stream is the per-operation contracts chunk by chunk, and the
+   final state is again synchronised and idle. *)
+Theorem C03_burst_files_pipeline : forall P, pc_filter P = None -> let C := pc_reader P in
+  c_faults C = [] -> c_fix_moveout C = true -> c_mask C = WATCHDOG_ALL ->
+  forall s ops cuts L recs,
+  RSync C (p_world s) (p_k s) (p_r s) -> buffer_idle (p_buf s) -> p_stopped s = false ->
+  (forall id, In id (map fst (p_tbl s)) -> (id < p_next s)%N) ->
+  burst_ok C (p_world s) ops ->
+  let KB := fst (burst_end (p_k s) (p_world s) ops) in let wn := snd (burst_end (p_k s) (p_world s) ops) in
+  k_queue KB = concat (seq_qs (p_k s) (p_world s) ops) ->
+  CutsPipeProofs.sum cuts = length (k_queue KB) -> Forall tick_or_emit L ->
+  exists nit s' obs chunks, prun P s (burst_hist P ops cuts L nit) [] = Done (s', obs) /\
+    sound_along P s recs (burst_hist P ops cuts L nit) = true /\
+    p_out s' = p_out s ++ concat chunks /\
+    Forall2 (fun ch ct0 => collapse ch = collapse ct0) chunks (contracts_of C (pc_full P) (p_world s) ops) /\
+    p_world s' = wn /\ RSync C wn (p_k s') (p_r s') /\ buffer_idle (p_buf s') /\ p_stopped s' = false /\
+    (forall id, In id (map fst (p_tbl s')) -> (id < p_next s')%N).
+Proof. exact burst_pipeline. Qed.
+Print Assumptions C03_burst_files_pipeline.
+
+(* records about files: the outcome of a read does not depend on the file system, the kernel state or the accumulator *)
+Theorem C03_read_batch_file : forall C b, Forall nondir b -> forall r t1 k1 acc1 r' k1' out1, pend r = None ->
+  read_batch C t1 (r, k1, acc1) b = Done (r', k1', out1) ->
+  k1' = k1 /\ pend r' = None /\ exists ev, out1 = acc1 ++ ev /\
+    Forall (fun x => exists e, In e b /\ of_rec e x) ev /\
+    forall t2 k2 acc2, read_batch C t2 (r, k2, acc2) b = Done (r', k2, acc2 ++ ev).
+Proof. exact read_batch_file. Qed.
+Print Assumptions C03_read_batch_file.
+
 (* ================================================================== tie to the Pipeline model *)
 (* [deliver_one] is what the Pipeline model (validated in lock-step against the real observer) delivers for
    AOp o; ARead (whole kernel queue); ATick delay; AEmit x nit, from any state whose buffer is idle (nothing queued,
@@ -783,3 +855,32 @@ Example C03_pipeline_loose_nonvacuous :
   exists s0 s s1, pinit phx_P w0 = Some s0 /\ run_loose phx_P first_cutter early_timer 4 s0 seq3_ops = Some s /\
     run_blocks phx_P 4 s0 seq3_ops = Some s1 /\ p_out s = p_out s1 /\ length (p_out s) = 18%nat.
 Proof. split; [exact early_timer_ok | split; [exact (first_cutter_sum phx_P) | exact seq3_loose_run]]. Qed.
+
+(* C03_burst_files_contract / _sound: world /s/R (watched), /s/O, /s/R/d, /s/R/d/f, /s/R/e; burst touch R/d/a; mv R/d/f R/e/f;
+   mv R/d/a O/a; chmod R/e/f; write R/e/f; unlink R/e/f is in the class, its 11 records are not coalesced; on the Pipeline
+   model burst_hist with the cuts 2 + 2 + 7 (cutting the first rename between its halves), the delay and 14 queue_events
+   calls: sound_along holds, the 17 events are the six contracts up to collapse, FileMoved(R/d/f -> R/e/f) among them *)
+Example C03_burst_files_nonvacuous :
+  burst_ok (cfgx true true) rp_world burst_ops /\
+  exists r k, construct (cfgx true true) kinit (w_fs rp_world) = Some (r, k) /\ RSync (cfgx true true) rp_world k r /\
+    k_queue (fst (burst_end k rp_world burst_ops)) = concat (seq_qs k rp_world burst_ops) /\
+    length (k_queue (fst (burst_end k rp_world burst_ops))) = 11%nat /\
+    exists s0 s obs, pinit (Px true) rp_world = Some s0 /\ prun (Px true) s0 burst_history [] = Done (s, obs) /\
+      sound_along (Px true) s0 [] burst_history = true /\
+      collapse (p_out s) = collapse (concat (contracts_of (cfgx true true) false rp_world burst_ops)) /\
+      In (mk FileMoved rp_df bf_ef) (p_out s) /\ length (p_out s) = 17%nat.
+Proof. split; [exact burst_ops_ok | exact burst_example]. Qed.
+
+(* why the side condition of the burst theorems is there: `chmod f; chmod f` back to back - the kernel coalesces the second
+   IN_ATTRIB into the first (1 record instead of 2), one FileModified is delivered; chunk by chunk this is not the two
+   contracts, up to collapse of the whole stream it is *)
+Example C03_burst_coalesce_example :
+  exists r k, construct (cfgx true true) kinit (w_fs rp_world) = Some (r, k) /\
+    let ops := [Chmod rp_df; Chmod rp_df] in
+    burst_ok (cfgx true true) rp_world ops /\
+    length (k_queue (fst (burst_end k rp_world ops))) = 1%nat /\ length (concat (seq_qs k rp_world ops)) = 2%nat /\
+    exists s0 s obs, pinit (Px true) rp_world = Some s0 /\
+      prun (Px true) s0 (burst_hist (Px true) ops [1%nat] [] 2) [] = Done (s, obs) /\
+      p_out s = [mk FileModified rp_df []] /\
+      collapse (p_out s) = collapse (concat (contracts_of (cfgx true true) false rp_world ops)).
+Proof. exact burst_coalesce_example. Qed.
